@@ -754,14 +754,20 @@ impl<TStdlib: Stdlib, TStdIn: Input, TStdOut: Printer, TLpt1: Printer>
 
     /// Leaves the call that was in progress when a handled error occurred:
     /// the context and stacktrace entry of a failed built-in (it was entered
-    /// with `PushStack`, its `PopStack` will never run) and the argument
-    /// collecting states of calls whose arguments were being evaluated.
+    /// with `PushStack`, its `PopStack` will never run), the argument
+    /// collecting states of calls whose arguments were being evaluated and
+    /// the by-ref results of a call that were still waiting to be written back
+    /// (the queue is filled and drained by the instructions that follow the
+    /// body of one call, so it is empty unless one of these stores failed; what
+    /// is left belongs to the abandoned statement and must not be handed to the
+    /// arguments of the next call).
     fn abandon_failed_call(&mut self, is_built_in: bool) {
         if is_built_in {
             self.context.pop();
             self.stacktrace.remove(0);
         }
         self.context.drop_collecting_arguments();
+        self.by_ref_stack.clear();
     }
 
     /// Gets the instruction address where the most recent error occurred.
